@@ -165,7 +165,12 @@ theorem c_cmpUp {ts e} (ih : CLevel parsePrefix 3 .unary ts e) : CLevel parseCom
   obtain ⟨f, rfl⟩ := succ_of_le (c := 0) (by omega : 0 + 1 ≤ f)
   have hc := cont_cmp_false.mp hcont
   rw [parseCompare, ih pre rest hpre hrest hc.2 f (by omega)]
-  simp only [cmp_match_eq, hc.1]
+  simp only
+  split
+  · rfl
+  · rename_i k hk
+    have hk' : cmpOf (cur rest).tok.kind = some k := hk
+    rw [hc.1] at hk'; cases hk'
 
 theorem c_cmpBin {l r o k el er} (ih1 : CLevel parsePrefix 3 .unary l el) (ho : cmpOf o.kind = some k)
     (ih2 : CLevel parseCompare 4 .cmp r er) :
@@ -183,8 +188,15 @@ theorem c_cmpBin {l r o k el er} (ih1 : CLevel parsePrefix 3 .unary l el) (ho : 
     (by simp only [List.length_append, List.length_cons]; omega)
   have h2 := ih2 pr rest rfl hrest hcont f (by simp only [List.length_append]; omega)
   rw [parseCompare, h1]
-  simp only [cmp_match_eq, cur_cons, ho]
-  rw [adv_cons (by simp [hrest]), h2]
+  simp only [cur_cons]
+  split
+  · rename_i hk
+    have hk' : cmpOf ao.tok.kind = none := hk
+    rw [ho] at hk'; cases hk'
+  · rename_i k' hk
+    have hk' : cmpOf ao.tok.kind = some k' := hk
+    rw [ho] at hk'; cases hk'
+    rw [adv_cons (by simp [hrest]), h2]
 
 theorem c_unaryNot {ts o e} (ho : o.kind = .not) (ih : CLevel parsePrefix 3 .unary ts e) :
     CLevel parsePrefix 3 .unary (o :: ts) (.not e) := by
@@ -250,7 +262,7 @@ theorem c_postProp {ts d i e} (ih : CPost ts e) (hd : d.kind = .dot) (hi : i.kin
   obtain ⟨g, hg⟩ : ∃ g, f - k = g + 1 := ⟨f - k - 1, by omega⟩
   have hg' : f - (k + 1) = g := by omega
   rw [hg, hg', postfixLoop]
-  simp only [cur_cons, hd, adv_cons (l := ai :: rest) (by simp), hi, adv_cons hrest]
+  simp only [cur_cons, hd, adv_cons (rest := ai :: rest) (by simp), hi, adv_cons hrest]
 
 theorem c_postStar {ts d s e} (ih : CPost ts e) (hd : d.kind = .dot) (hs : s.kind = .star) :
     CPost (ts ++ [d, s]) (.arrDeref e) := by
@@ -269,7 +281,7 @@ theorem c_postStar {ts d s e} (ih : CPost ts e) (hd : d.kind = .dot) (hs : s.kin
   obtain ⟨g, hg⟩ : ∃ g, f - k = g + 1 := ⟨f - k - 1, by omega⟩
   have hg' : f - (k + 1) = g := by omega
   rw [hg, hg', postfixLoop]
-  simp only [cur_cons, hd, adv_cons (l := ai :: rest) (by simp), hs, adv_cons hrest]
+  simp only [cur_cons, hd, adv_cons (rest := ai :: rest) (by simp), hs, adv_cons hrest]
 
 theorem c_postIndex {ts lb idx rb e ei} (ih : CPost ts e) (hl : lb.kind = .lbracket)
     (ih2 : CLevel parseLogicalOr 6 .or idx ei) (hr : rb.kind = .rbracket) :
@@ -294,7 +306,7 @@ theorem c_postIndex {ts lb idx rb e ei} (ih : CPost ts e) (hl : lb.kind = .lbrac
   have h1 := ih2 pidx (arb :: rest) rfl (by simp) (by rw [cur_cons, hr]; rfl) g
     (by simp only [List.length_append, List.length_cons]; omega)
   rw [hg, hg', postfixLoop]
-  simp only [cur_cons, hl, adv_cons (l := pidx ++ arb :: rest) (by simp), h1, hr, ne_eq, not_true_eq_false,
+  simp only [cur_cons, hl, adv_cons (rest := pidx ++ arb :: rest) (by simp), h1, hr, ne_eq, not_true_eq_false,
     if_false, adv_cons hrest]
 
 theorem c_primInt {t v} (ht : t.kind = .int) (hv : parseIntLit t.val = some v) :
@@ -343,8 +355,8 @@ theorem c_primCall0 {t lp rp} (ht : t.kind = .ident) (hl : lp.kind = .lparen) (h
   have := tk_eq_nil h4; subst this
   obtain ⟨f, rfl⟩ := succ_of_le (c := 0) (by omega : 0 + 1 ≤ f)
   rw [parsePrimary]
-  simp only [List.cons_append, List.nil_append, cur_cons, ht, adv_cons (l := alp :: arp :: rest) (by simp), hl,
-    adv_cons (l := arp :: rest) (by simp), hr, adv_cons hrest, if_true]
+  simp only [List.cons_append, List.nil_append, cur_cons, ht, adv_cons (rest := alp :: arp :: rest) (by simp), hl,
+    adv_cons (rest := arp :: rest) (by simp), hr, adv_cons hrest, if_true]
 
 theorem c_primCall {t lp rp args es} (ht : t.kind = .ident) (hl : lp.kind = .lparen) (hd : DerArgs args es)
     (ih : CArgs args es) (hr : rp.kind = .rparen) :
@@ -369,8 +381,8 @@ theorem c_primCall {t lp rp args es} (ht : t.kind = .ident) (hl : lp.kind = .lpa
   have h1 := ih (a0 :: pr0) arp rest [] rfl hr hrest f
     (by simp only [List.length_append, List.length_cons] at hf ⊢; omega)
   rw [parsePrimary]
-  simp only [cur_cons, ht, adv_cons (l := alp :: (a0 :: pr0 ++ arp :: rest)) (by simp), hl,
-    adv_cons (l := a0 :: pr0 ++ arp :: rest) (by simp), List.cons_append, hnr, if_true, if_false] at h1 ⊢
+  simp only [List.cons_append] at h1 ⊢
+  simp only [cur_cons, ht, adv_cons2, hl, hnr, if_true, if_false]
   rw [h1]; rfl
 
 theorem c_primParen {lp ts rp e} (hl : lp.kind = .lparen) (ih : CLevel parseLogicalOr 6 .or ts e)
@@ -389,7 +401,7 @@ theorem c_primParen {lp ts rp e} (hl : lp.kind = .lparen) (ih : CLevel parseLogi
   have h1 := ih pts (arp :: rest) rfl (by simp) (by rw [cur_cons, hr]; rfl) f
     (by simp only [List.length_append, List.length_cons]; omega)
   rw [parsePrimary]
-  simp only [cur_cons, hl, adv_cons (l := pts ++ arp :: rest) (by simp), h1, hr, adv_cons hrest, if_true]
+  simp only [cur_cons, hl, adv_cons (rest := pts ++ arp :: rest) (by simp), h1, hr, adv_cons hrest, if_true]
 
 theorem c_argsOne {ts e} (ih : CLevel parseLogicalOr 6 .or ts e) : CArgs ts [e] := by
   intro pre rp rest acc hpre hr hrest f hf
@@ -412,7 +424,7 @@ theorem c_argsMore {ts c rest' e es} (ih : CLevel parseLogicalOr 6 .or ts e) (hc
   have h3 := ih2 p2 rp rest (acc ++ [e]) rfl hr hrest f
     (by simp only [List.length_append, List.length_cons]; omega)
   rw [argsLoop, h1]
-  simp only [cur_cons, hc, adv_cons (l := p2 ++ rp :: rest) (by simp), h3, List.append_assoc, List.cons_append,
+  simp only [cur_cons, hc, adv_cons (rest := p2 ++ rp :: rest) (by simp), h3, List.append_assoc, List.cons_append,
     List.nil_append]
 
 theorem complete_all {L ts e} (h : Der L ts e) : Claim L ts e := by
